@@ -163,6 +163,14 @@ impl Alignment {
     }
 }
 
+/// Verification hook (only with `--cfg bio_verif`): read-only access to the operations.
+#[cfg(bio_verif)]
+impl Alignment {
+    pub fn verif_operations(&self) -> &[AlignmentOperation] {
+        &self.operations
+    }
+}
+
 #[derive(Copy, Clone, Debug, Serialize, Deserialize)]
 pub struct TracebackCell {
     score: i32,
